@@ -859,6 +859,8 @@ class Problem:
                 or np.isnan(maxcv_filter)
                 or fun_val < fun_filter
                 or maxcv_val < maxcv_filter
+                or fun_val == fun_filter
+                and maxcv_val == maxcv_filter
                 for fun_filter, maxcv_filter in zip(
                     self._fun_filter,
                     self._maxcv_filter,
